@@ -102,9 +102,34 @@ def deadline_case(cfg, twin, limit, base, plan):
         def elapsed():
             with proofsim.frozen(clock):
                 return tab.timers.build.elapsed_ms()
+        # independent view: simulated time spent since the first step() call (the clock only
+        # advances on reads made by the system, and those only happen inside our calls), and
+        # the moments at which the model of an open branch starts being generated
+        t0 = [0, 0]      # [time accumulated in completed step() calls, read index at entry of the current call]
+        model_starts = []
+        Model = tab.logic.Model
+        orig_read = Model.read_branch
+        def read_branch(self_, branch, *a, **kw):
+            # a stopwatch's view: time between the first clock read of each step() call and now
+            first = t0[1]
+            cur = (clock.ms - clock.log[first]) if first < len(clock.log) else 0
+            model_starts.append(t0[0] + cur)
+            return orig_read(self_, branch, *a, **kw)
+        Model.read_branch = read_branch
+        try:
+            return _deadline_loop(cfg, twin, limit, tab, clock, elapsed, t0, model_starts, info, n)
+        finally:
+            Model.read_branch = orig_read
+
+def _deadline_loop(cfg, twin, limit, tab, clock, elapsed, t0, model_starts, info, n):
+    if True:
         calls = 0
+        t0[1] = len(clock.log)      # reads made while constructing the tableau are not build time
         while True:
             calls += 1
+            if t0[1] < len(clock.log):
+                t0[0] += clock.log[-1] - clock.log[t0[1]]
+            t0[1] = len(clock.log)
             if calls > n + 5:
                 raise V('timeout', 'no-progress', 'step loop did not end within n+5 calls under a time limit')
             pre = elapsed()
@@ -129,6 +154,10 @@ def deadline_case(cfg, twin, limit, base, plan):
             if not entry:
                 break
         info['fired'] = len(clock.fired)
+        late = [w for w in model_starts if w > limit]
+        if late:
+            raise V('timeout', 'models-after-deadline', 'the model of an open branch was started %sms into the build, past the time limit %sms, without ProofTimeoutError (model starts at %s ms)' % (
+                late[0], limit, model_starts))
         with proofsim.frozen(clock):
             if info['raised']:
                 if not tab.finished:
